@@ -190,7 +190,7 @@ func (e *Engine) buildUnit(name string) (res *UnitResult) {
 	// every call anchor of the contract must have matched a call site
 	if c != nil && vc.err == nil {
 		for _, a := range c.Ats {
-			if (a.Kind == "call" || a.Kind == "select") && !vc.atMatched[fmt.Sprintf("%s:%d", a.C.File, a.C.Line)] {
+			if (a.Kind == "call" || a.Kind == "select" || a.Kind == "recv") && !vc.atMatched[fmt.Sprintf("%s:%d", a.C.File, a.C.Line)] {
 				ord := "(any)"
 				if a.Ord >= 0 {
 					ord = fmt.Sprintf("#%d", a.Ord)
